@@ -496,6 +496,7 @@ type c17RealCase struct {
 	// HashFetcher response timer (package var dfltTimeout) and a slow answer to the K-th GetHashes request:
 	// HashMode "hold": the answer enters the mailbox directly in front of the HashFetcher's timeout SyncStop;
 	// "after": directly behind it; "delay": answered HashDelayMs after the request
+	Stale2      bool   `json:"stale2"` // second session: a poisoned copy with the PREVIOUS session's sequence number precedes every sequenced response
 	HfTimeoutMs int    `json:"hftimeoutms"`
 	HashK       int    `json:"hashk"`
 	HashMode    string `json:"hashmode"`
@@ -511,6 +512,8 @@ type c17Add struct {
 
 type c17Session struct {
 	Clean    string   `json:"clean"` // "" or what was left behind after the session ended
+	HC       int      `json:"hc"`    // highest common block of the local and the served chain when the session started
+	Injected int      `json:"injected"`
 	Started  bool     `json:"started"`
 	Ancestor int64    `json:"ancestor"` // FinderResult ancestor height, -1 none
 	AncOnLocal  bool  `json:"anc_on_local"`
@@ -544,6 +547,48 @@ func c17RunSession(t *testing.T, c *c17RealCase, local, served *chain.StubBlockC
 	quit := make(chan struct{})
 	hubDone := make(chan struct{})
 	injected := false
+	ses.HC = -1
+	for i := 0; i <= local.Best && i <= served.Best; i++ {
+		if bytes.Equal(local.Hashes[i], served.Hashes[i]) {
+			ses.HC = i
+		}
+	}
+	// a message of an earlier session (sequence number - 1) of the same type, with content that would derail the session
+	poison := func(x interface{}) interface{} {
+		junk := []byte("stale-message-of-the-previous-session-00")[:32]
+		switch m := x.(type) {
+		case *message.GetSyncAncestorRsp:
+			return &message.GetSyncAncestorRsp{Seq: m.Seq - 1, Ancestor: &types.BlockInfo{Hash: local.Hashes[0], No: 0}}
+		case *message.GetHashByNoRsp:
+			return &message.GetHashByNoRsp{Seq: m.Seq - 1, BlockHash: junk}
+		case *message.GetHashesRsp:
+			hs := make([]message.BlockHash, len(m.Hashes))
+			for i := range hs {
+				hs[i] = junk
+			}
+			return &message.GetHashesRsp{Seq: m.Seq - 1, PrevInfo: m.PrevInfo, Hashes: hs, Count: m.Count}
+		case *message.GetBlockChunksRsp:
+			return &message.GetBlockChunksRsp{Seq: m.Seq - 1, ToWhom: m.ToWhom, Err: errC17Rsp}
+		case *message.FinderResult:
+			return &message.FinderResult{Seq: m.Seq - 1, Ancestor: &types.BlockInfo{Hash: local.Hashes[0], No: 0}}
+		case *message.CloseFetcher:
+			return &message.CloseFetcher{Seq: m.Seq - 1, FromWho: NameBlockFetcher}
+		case *message.SyncStop:
+			return &message.SyncStop{Seq: m.Seq - 1, FromWho: "stale", Err: errC17Rsp}
+		}
+		return nil
+	}
+	toSyncer := func(x interface{}) {
+		if c.Stale2 && c17SecondSession && ss.realSyncer.isRunning {
+			if p := poison(x); p != nil {
+				mu.Lock()
+				ses.Injected++
+				mu.Unlock()
+				ss.realSyncer.handleMessage(p)
+			}
+		}
+		ss.realSyncer.handleMessage(x)
+	}
 	hashReqs := 0
 	slow := c.HashK > 0 && stale == nil && !c17SecondSession
 	var heldRsp *message.GetHashesRsp
@@ -572,7 +617,7 @@ func c17RunSession(t *testing.T, c *c17RealCase, local, served *chain.StubBlockC
 				}
 			}
 			mu.Unlock()
-			ss.realSyncer.handleMessage(msg)
+			toSyncer(msg)
 		case *message.AddBlock:
 			b := m.Block
 			a := c17Add{No: b.BlockNo(), Hash: fmt.Sprintf("%x", b.BlockHash()[:6]), Prev: fmt.Sprintf("%x", b.GetHeader().GetPrevBlockHash()[:6])}
@@ -599,7 +644,7 @@ func c17RunSession(t *testing.T, c *c17RealCase, local, served *chain.StubBlockC
 			// Syncer.Receive drops everything but SyncStart while no session is running
 			deliver := func(x interface{}) {
 				if ss.realSyncer.isRunning {
-					ss.realSyncer.handleMessage(x)
+					toSyncer(x)
 				}
 			}
 			if heldRsp != nil && m.Err == ErrHashFetcherTimeout {
@@ -645,7 +690,7 @@ func c17RunSession(t *testing.T, c *c17RealCase, local, served *chain.StubBlockC
 					ss.handleActorMsg(msg)
 				}
 			} else {
-				ss.realSyncer.handleMessage(msg)
+				toSyncer(msg)
 			}
 		}
 	}
@@ -859,4 +904,36 @@ var c17Hub *StubRequester
 
 func c17RunSessionHub(t *testing.T, c *c17RealCase, local, served *chain.StubBlockChain, peers []*StubPeer, target int, stale *message.AddBlockRsp) (c17Session, *message.AddBlockRsp) {
 	return c17RunSession(t, c, local, served, peers, target, stale)
+}
+
+// TestVerifC17Seq: Syncer.verifySeq on every message type the Syncer consumes that carries a session
+// sequence number, sent as the senders send it (pointer), with an old, the current and a future number.
+func TestVerifC17Seq(t *testing.T) {
+	out, err := os.Create(os.Getenv("VERIF_OUT"))
+	if err != nil {
+		t.Skip("no VERIF_OUT")
+	}
+	defer out.Close()
+	zerolog.SetGlobalLevel(zerolog.Disabled)
+	sy := NewSyncer(nil, chain.InitStubBlockChain(nil, 1), nil)
+	sy.Seq = 5
+	res := map[string][3]bool{}
+	for i, q := range []uint64{4, 5, 6} {
+		msgs := map[string]interface{}{
+			"GetSyncAncestorRsp": &message.GetSyncAncestorRsp{Seq: q},
+			"GetHashByNoRsp":     &message.GetHashByNoRsp{Seq: q},
+			"GetHashesRsp":       &message.GetHashesRsp{Seq: q},
+			"GetBlockChunksRsp":  &message.GetBlockChunksRsp{Seq: q},
+			"FinderResult":       &message.FinderResult{Seq: q},
+			"SyncStop":           &message.SyncStop{Seq: q},
+			"CloseFetcher":       &message.CloseFetcher{Seq: q},
+		}
+		for name, m := range msgs {
+			r := res[name]
+			r[i] = sy.verifySeq(m)
+			res[name] = r
+		}
+	}
+	b, _ := json.Marshal(res)
+	fmt.Fprintln(out, string(b))
 }
